@@ -22,6 +22,8 @@ SimNext == \/ CPeekYield /\ Rec("CPeekYield", 0)
            \/ CPeekEnd /\ Rec("CPeekEnd", 0)
            \/ CPeekFail /\ Rec("CPeekFail", 0)
            \/ CStart /\ Rec("CStart", 0)
+           \/ CFork /\ Rec("CFork", nf)
+           \/ CStartF /\ Rec("CStartF", 0)
            \/ CGet /\ Rec("CGet", 0)
            \/ CJoinProd /\ Rec("CJoinProd", 0)
            \/ CJoinW /\ Rec("CJoinW", jw)
